@@ -68,6 +68,11 @@ POSITIONS = {
     "insert": lambda p, Q, t, v: p.call(p.call(Q, "into", t), "insert", 1, v, "z"),
     "insert-rows": lambda p, Q, t, v: p.call(p.call(Q, "into", t), "insert", (1, "y"), (2, v)),
     "replace": lambda p, Q, t, v: p.call(p.call(Q, "into", t), "replace", v),
+    # one row given as a single list / tuple argument (its members are the row's values, whatever their type)
+    "insert-list-row-single": lambda p, Q, t, v: p.call(p.call(Q, "into", t), "insert", [v]),
+    "insert-tuple-row-single": lambda p, Q, t, v: p.call(p.call(Q, "into", t), "insert", (v,)),
+    "insert-list-row": lambda p, Q, t, v: p.call(p.call(Q, "into", t), "insert", [7, v]),
+    "replace-list-row-single": lambda p, Q, t, v: p.call(p.call(Q, "into", t), "replace", [v]),
     "set": lambda p, Q, t, v: p.call(p.call(Q, "update", t), "set", p.call(t, "field", "a"), v),
     "set-str-field": lambda p, Q, t, v: p.call(p.call(p.call(Q, "update", t), "set", "a", v), "where", p.bin("==", p.call(t, "field", "id"), 1)),
     "function-arg": lambda p, Q, t, v: p.call(p.call(Q, "from_", t), "select", p.new("fn.Coalesce", p.call(t, "field", "a"), v)),
@@ -118,6 +123,8 @@ def applicable(pos, kind, d, v=None):
         return False
     if pos in NOT_FOR.get(kind, ()):
         return False
+    if pos in ("insert-list-row-single", "insert-tuple-row-single", "insert-list-row", "replace-list-row-single"):
+        return not isinstance(v, (list, tuple)) and v is not None  # (a nested list is an array value; None rows are skipped)
     if kind == "json" and isinstance(v, list) and pos in LIST_AS_ARRAY:
         return False  # a Python list means an SQL array / row there, not a JSON value
     if kind == "enum" and pos == "select-valuewrapper":
@@ -450,6 +457,31 @@ def run_case(case, mon):
             return
     except Exception:
         pass
+    # (c) values that stay inline while a parameterizer is active (enum members, wrappers made with allow_parametrize=False) are
+    #     written exactly as without one: every string literal of the parameterised rendering is a literal of the inline rendering
+    if kind in ("str", "enum") and pos not in JSON_ONLY and pos not in INT_ONLY:
+        reg = registry()
+        try:
+            if kind == "enum":
+                o3, inline3 = tree.obj, sql_v
+            else:
+                p3 = P()
+                t3 = p3.new("Table", "t")
+                r3 = POSITIONS[pos](p3, Cls(d), t3, p3.new("ValueWrapper", v, allow_parametrize=False))
+                o3 = run(p3.prog(), d)[r3.i]
+                inline3 = None if isinstance(o3, Failed) else o3.get_sql(contexts()[d])
+            if inline3 is not None:
+                param3 = o3.get_sql(contexts()[d].copy(parameterizer=reg["Parameterizer"]()))
+                lits_i = [t_.text for t_ in tokenize(inline3, d) if t_.kind == "STR"]
+                lits_p = [t_.text for t_ in tokenize(param3, d) if t_.kind in ("STR", "ERR", "COMMENT")]
+                mon.count("inline_under_parameterizer_comparisons")
+                odd = [x_ for x_ in lits_p if x_ not in lits_i]
+                if odd:
+                    mon.violation("%s:inline-under-parameterizer-differs:%s" % (DIALECT_OF[d], kind), "%s %r at %s/%s stays inline under a parameterizer but is written %r there; "
+                                  "without one the statement is %r" % (kind, v if not isinstance(v, str) else v[:60], pos, d, odd[0][:80], _short(inline3)))
+                    return
+        except Exception:
+            mon.count("inline_under_parameterizer_unbuildable")
     if DIALECT_OF[d] == "sqlite":
         text = sql_v[mid_v[0].start:mid_v[-1].end]
         if a > 0 and tv[a - 1].kind == "OP" and tv[a - 1].text == "-" and kind in ("int", "float", "decimal"):
@@ -501,4 +533,4 @@ def coverage_extra(m, tier):
 
 
 def FLOORS(tier):
-    return {"token_streams_compared": 20000, "sqlite_engine_evaluations": 3000}
+    return {"inline_under_parameterizer_comparisons": 20000, "token_streams_compared": 20000, "sqlite_engine_evaluations": 3000}
